@@ -193,6 +193,26 @@ theorem doActs_ubuf (cfg : Cfg) (s : State) (acts : List Act) (h : (doActs cfg s
 inductive FL | done | blocked | disconnect | crash
 deriving DecidableEq
 
+/-- the callback run() owes for a frame it took from the unpacker -/
+def cbOf (f : Frame) : Option Cb :=
+  if f.op.toNat = OP_PUBLISH then
+    match read f with
+    | some (.ok (.publish i c p)) => some (.msg (i, c, p))
+    | _ => none
+  else if f.op.toNat = OP_ERROR then
+    match read f with
+    | some (.ok (.error t)) => some (.err t)
+    | _ => none
+  else none
+
+/-- run() takes the next frame from the unpacker -/
+def popRun (s : State) (ml : Nat) (op : UInt8) : State :=
+  { s with ubuf := (popFrame s.ubuf ml op).2, popped := s.popped ++ [(popFrame s.ubuf ml op).1] }
+
+/-- ghost: frame `f` was taken by run() and callback `c` (if any) was made for it -/
+def noteRun (s : State) (f : Frame) (c : Option Cb) : State :=
+  { s with runFrames := s.runFrames ++ [f], delivered := s.delivered ++ c.toList }
+
 /-- `for opcode, data in self.unpacker:` of run(), from the current buffer on -/
 def frameLoop (cfg : Cfg) (s : State) : State × List Out × FL :=
   match h : header s.ubuf with
@@ -200,25 +220,24 @@ def frameLoop (cfg : Cfg) (s : State) : State × List Out × FL :=
   | .bad _ => (s, [], .disconnect)              -- ProtocolException is a Disconnect
   | .ok ml op =>
     let f := (popFrame s.ubuf ml op).1
-    let s1 := { s with ubuf := (popFrame s.ubuf ml op).2, popped := s.popped ++ [f], runFrames := s.runFrames ++ [f] }
+    let s1 := popRun s ml op
     if f.op.toNat = OP_PUBLISH then
       match read f with
       | some (.ok (.publish i c p)) =>
-        let s2 := { s1 with delivered := s1.delivered ++ [.msg (i, c, p)] }
-        let r := doActs cfg s2 (cfg.react (i, c, p))
+        let r := doActs cfg (noteRun s1 f (some (.msg (i, c, p)))) (cfg.react (i, c, p))
         if hr : r.2.2 = true then
           -- the callback returned without blocking (so no nested reconnect reset the unpacker)
           let t := frameLoop cfg r.1
           (t.1, Out.msg (i, c, p) :: r.2.1 ++ t.2.1, t.2.2)
         else (r.1, Out.msg (i, c, p) :: r.2.1, .blocked)
-      | _ => (s1, [], .crash)
+      | _ => (noteRun s1 f none, [], .crash)
     else if f.op.toNat = OP_ERROR then
       match read f with
       | some (.ok (.error t)) =>
-        let r := frameLoop cfg { s1 with delivered := s1.delivered ++ [.err t] }
+        let r := frameLoop cfg (noteRun s1 f (some (.err t)))
         (r.1, Out.err t :: r.2.1, r.2.2)
-      | _ => (s1, [], .crash)
-    else frameLoop cfg s1                       -- other opcodes are ignored
+      | _ => (noteRun s1 f none, [], .crash)
+    else frameLoop cfg (noteRun s1 f none)      -- other opcodes are ignored
 termination_by s.ubuf.length
 decreasing_by
   · have := header_ok h
@@ -227,10 +246,12 @@ decreasing_by
     simp only [List.length_drop]
     omega
   · have := header_ok h
-    simp only [popFrame, List.length_drop]
+    show (List.drop ml s.ubuf).length < s.ubuf.length
+    simp only [List.length_drop]
     omega
   · have := header_ok h
-    simp only [popFrame, List.length_drop]
+    show (List.drop ml s.ubuf).length < s.ubuf.length
+    simp only [List.length_drop]
     omega
 
 /-- run(): after the frames of one recv() have been handled (or from wherever a callback's publish returns) -/
@@ -309,7 +330,8 @@ def step (cfg : Cfg) (s : State) (e : Ev) : State × List Out :=
   | .authRecv who, .timeout => retry s who
   | .authRecv who, .sockErr => retry s who
   | .authSend who rand, .sendOk =>
-    let s1 := { s with sent := s.sent ++ [authFrame cfg rand], nonce := some rand }
+    -- do_auth / connect / tryconnect return (every path of `resume` sets pc again)
+    let s1 := { s with sent := s.sent ++ [authFrame cfg rand], nonce := some rand, pc := .idle }
     let r := resume cfg s1 who
     (r.1, .wrote s.nsock (authFrame cfg rand) :: r.2)
   | .authSend who _, .timeout => retry s who
